@@ -12,6 +12,10 @@
 (*   shape  = [k |-> "rect", a, b] (length x width) | [k |-> "disc", a] (radius) | [k |-> "poly", v]     *)
 (*            (integer vertices about the shape origin) | [k |-> "group", parts |-> <<[a, b, cx, cy]>>]   *)
 (*   pred   = [k |-> "none"] | [k |-> "traj", g, states] | [k |-> "set", g, occs |-> <<[t, shape, pose]>>] *)
+(*            a stored occupancy may hold for a closed time INTERVAL [t, t2] (field t2 present); intervals *)
+(*            may touch, overlap, be nested or leave holes, in any list order: where several stored       *)
+(*            occupancies cover t each of them is an admissible answer (the statement says "the stored   *)
+(*            occupancy"), and the scenario level must agree with the per-obstacle answer                  *)
 (*            g = GAP between the initial time step and the first prediction step (first step t0+1+g);    *)
 (*            inside the gap there is no state and no occupancy: the time horizon of a dynamic obstacle   *)
 (*            is {t0} union the prediction's own steps AFTER t0.  g may be NEGATIVE: the prediction then  *)
@@ -73,12 +77,14 @@ Placed(sh, p) ==
 Src(k, i) == [k |-> k, i |-> i]
 TrajStates(o) == IF o.role = "dynamic" /\ o.pred.k = "traj" THEN o.pred.states ELSE <<>>
 SetOccs(o)    == IF o.role \in {"dynamic", "phantom"} /\ o.pred.k = "set" THEN o.pred.occs ELSE <<>>
-Sources(o, t) ==       \* every source the statement offers for (o, t); the contract needs at most one
+Covers(c, t) == c.t <= t /\ t <= (IF "t2" \in DOMAIN c THEN c.t2 ELSE c.t)      \* stored for a time step or a closed interval
+HasIntervals(o) == \E i \in DOMAIN SetOccs(o) : "t2" \in DOMAIN SetOccs(o)[i]
+Sources(o, t) ==       \* every source the statement offers for (o, t); at most one, except for overlapping stored intervals
     (IF o.role = "environment" THEN {Src("Env", 0)} ELSE {})                       \* no time dimension at all
     \cup (IF o.role = "static" THEN {Src("Static", 0)} ELSE {})                    \* the same region at all times
     \cup (IF o.role = "dynamic" /\ o.init.t = t THEN {Src("Initial", 0)} ELSE {})  \* initial state at the initial time step
     \cup {Src("Traj", i) : i \in {j \in DOMAIN TrajStates(o) : TrajStates(o)[j].t = t /\ t > o.init.t}}   \* trajectory state afterwards
-    \cup {Src("SetOcc", i) : i \in {j \in DOMAIN SetOccs(o) : SetOccs(o)[j].t = t /\ (o.role = "phantom" \/ t > o.init.t)}}
+    \cup {Src("SetOcc", i) : i \in {j \in DOMAIN SetOccs(o) : Covers(SetOccs(o)[j], t) /\ (o.role = "phantom" \/ t > o.init.t)}}
 Source(o, t) == IF Sources(o, t) = {} THEN Src("None", 0) ELSE CHOOSE s \in Sources(o, t) : TRUE
 
 PredLen(o) == IF o.role \in {"dynamic", "phantom"}
@@ -87,12 +93,16 @@ PredLen(o) == IF o.role \in {"dynamic", "phantom"}
 PredGap(o) == IF o.role \in {"dynamic", "phantom"} /\ o.pred.k \in {"traj", "set"} THEN o.pred.g ELSE 0
 Timeless(o)    == o.role \in {"static", "environment"}
 FirstPredT(o)  == o.t0 + 1 + PredGap(o)                                   \* first step of the prediction
-LastT(o)       == o.t0 + PredGap(o) + PredLen(o)
+LastT(o)       == IF HasIntervals(o)
+                  THEN (LET E == {IF "t2" \in DOMAIN SetOccs(o)[i] THEN SetOccs(o)[i].t2 ELSE SetOccs(o)[i].t : i \in DOMAIN SetOccs(o)}
+                        IN CHOOSE x \in E : \A y \in E : y <= x)
+                  ELSE o.t0 + PredGap(o) + PredLen(o)
 InGap(o, t)    == o.t0 < t /\ t < FirstPredT(o)
 InHorizon(o, t) ==     \* {t0} (a phantom has no initial state) union the prediction's own steps; the gap is outside
     \/ Timeless(o)
     \/ (o.role = "dynamic" /\ t = o.t0)
-    \/ (PredLen(o) > 0 /\ FirstPredT(o) <= t /\ t <= LastT(o) /\ (o.role = "phantom" \/ t > o.t0))
+    \/ (~HasIntervals(o) /\ PredLen(o) > 0 /\ FirstPredT(o) <= t /\ t <= LastT(o) /\ (o.role = "phantom" \/ t > o.t0))
+    \/ (HasIntervals(o) /\ (o.role = "phantom" \/ t > o.t0) /\ \E i \in DOMAIN SetOccs(o) : Covers(SetOccs(o)[i], t))   \* holes are outside
 Overlaps(o) == o.role = "dynamic" /\ PredLen(o) > 0 /\ FirstPredT(o) <= o.t0
 
 SrcState(o, t) ==      \* the state the occupancy at t is derived from (NoneV for stored / timeless occupancies)
@@ -109,12 +119,13 @@ NormRegion(r) ==       \* a region in the logged form (sequences) -> the form of
       [] OTHER -> [k |-> "other"]
 StoredRegion(c) == IF "region" \in DOMAIN c THEN NormRegion(c.region) ELSE Placed(c.shape, c.pose)
 PredShape(o) == IF o.pred.k = "traj" /\ "shape" \in DOMAIN o.pred THEN o.pred.shape ELSE o.shape
-Occ(o, t) ==           \* expected occupancy for exact states
-    LET s == Source(o, t)
-    IN CASE s.k = "None"   -> NoneV
-         [] s.k = "SetOcc" -> StoredRegion(o.pred.occs[s.i])                            \* the stored occupancy
-         [] s.k = "Traj"   -> Placed(PredShape(o), PoseOf(SrcState(o, t)))
-         [] OTHER          -> Placed(o.shape, PoseOf(SrcState(o, t)))
+OccFrom(o, s) ==       \* the occupancy the source s stands for (exact states)
+    CASE s.k = "None"   -> NoneV
+      [] s.k = "SetOcc" -> StoredRegion(o.pred.occs[s.i])                               \* the stored occupancy
+      [] s.k = "Traj"   -> Placed(PredShape(o), PoseOf(o.pred.states[s.i]))
+      [] OTHER          -> Placed(o.shape, PoseOf(o.init))
+Occ(o, t) == OccFrom(o, Source(o, t))                  \* expected occupancy (one of the admissible ones)
+AdmOccs(o, t) == IF Sources(o, t) = {} THEN {NoneV} ELSE {OccFrom(o, s) : s \in Sources(o, t)}     \* all admissible answers
 
 AllStates(o) == IF o.role \in {"static", "dynamic"} THEN {o.init} \cup Range(TrajStates(o)) ELSE {}
 StateAt(o, t) ==       \* static: the initial state at all times; dynamic: the state whose time step is t
@@ -180,6 +191,7 @@ ByRoleType(S, role, type) == {o.id : o \in {p \in Range(S) : RoleOK(p, role) /\ 
 Centre(o, t) ==        \* where the obstacle is at t: the position of the state / the centre of the stored region
     LET s == Source(o, t)
     IN CASE s.k = "None" -> NoneV
+         [] Cardinality(Sources(o, t)) > 1 -> [k |-> "EITHER"]                  \* several stored occupancies cover t
          [] s.k = "Env" -> IF o.shape.k = "group" THEN [k |-> "EITHER"] ELSE [k |-> "at", p |-> <<o.init.x, o.init.y>>]
          [] s.k = "SetOcc" -> IF "region" \in DOMAIN o.pred.occs[s.i] THEN [k |-> "EITHER"]   \* observed region: no pose recorded
                               ELSE IF o.pred.occs[s.i].shape.k = "group" THEN [k |-> "EITHER"]    \* a group has no centre: statement silent
